@@ -503,7 +503,7 @@ def retry_check() -> list[str]:
 
 def gen_measure_inputs(rng, thorough: bool):
     sizes = [1, 2, 3, 5, 8, 13, 21, 32, 48, 64]
-    reps = 12 if thorough else 2
+    reps = 12 if thorough else 3
     kinds = ["zero", "rankdef", "indef", "psd", "indef", "repeated"]
     out = []
     k = 0
@@ -542,7 +542,7 @@ def run(ck: Check) -> None:
     thorough = ck.tier == "thorough"
 
     # ---- 1. the tie: model (binary64, recorded eigh answer) vs implementation ----------------------
-    cases = gen_eigen_cases(ck.rng, 2800 if thorough else 280) + gen_guard_cases(ck.rng)
+    cases = gen_eigen_cases(ck.rng, 2800 if thorough else 400) + gen_guard_cases(ck.rng)
     observations = [observe(c) for c in cases]
     agree_col = [agree_term(c, o) for c, o in zip(cases, observations)]
     query_col = [query_term(c, o) for c, o in zip(cases, observations)]
